@@ -81,12 +81,15 @@ def check(ctx):
     ctx.ob("N1.take.split-token", tkf, "token of the shuffle-split/sorter/taker tasks = the output name's token (or tokenize(outname, chunks, index, axis))", ok, "" if ok else "two different fancy indexings of one array emit identically named helper tasks: computed together one reads the other's selection")
 
 
-def key_inputs(ctx, only=None, floor=80):
-    """TOKFLOW.key-inputs over every key-forming function (or only the (relpath, qualname) pairs given)."""
+def key_inputs(ctx, only=None, floor=80, prefix=None):
+    """TOKFLOW.key-inputs over every key-forming function (or only the (relpath, qualname) pairs given,
+    or only the files under `prefix`)."""
     model = ctx.model
     n_funcs = 0
     for rel in model.package_files("dask"):
         if rel.startswith("dask/dataframe/") or "/tests/" in rel:
+            continue
+        if prefix is not None and not rel.startswith(prefix):
             continue
         if only is not None and rel not in {r_ for r_, _ in only}:
             continue
